@@ -131,6 +131,7 @@ func c16Source() string {
 			emit([]c16Shape{s, t})
 		}
 	}
+	sb.WriteString(c16LoopSource())
 	return sb.String()
 }
 
@@ -736,6 +737,7 @@ func runC16(e *env) {
 	}
 
 	// ----- JavaScript side -----
+	c16Loops(e, g, src, cases)
 	c16AutoescapeOn(e, g, cases)
 	c16JS(e, src, cases)
 	// ----- json of every value (c16json.go) -----
@@ -980,9 +982,19 @@ func c16JS(e *env, src string, cases []c16Case) {
 			// without the <br> tokens the output must decode back to the value without its line breaks
 			chks = append(chks, chk{ji, "html", removeNewlinesB(y)})
 			reqs = append(reqs, "html_decode "+hx.H(removeTokGo(out, "<br>")))
+			// and the statement itself: nothing but line breaks changed IN THE ESCAPED TEXT (decoding alone would
+			// accept an unescaped "<b>"), whatever directive precedes it in the chain
+			if got, want := removeTokGo(out, "<br>"), c16JSEscHTML(removeNewlinesB(y)); got != want {
+				c16Fail(e, hx.Violation{Kind: "oracle", What: "js: changeNewlineToBr output without <br> is not the escaped text of its input without line breaks", Case: cj,
+					Expected: hx.Q(trunc(want)), Observed: hx.Q(trunc(out))}, c16JSKnown(d, y, out, "escaped"))
+			}
 		case "insertWordBreaks":
 			chks = append(chks, chk{ji, "html", y})
 			reqs = append(reqs, "html_decode "+hx.H(removeTokGo(out, "<wbr>")))
+			if got, want := removeTokGo(out, "<wbr>"), c16JSEscHTML(y); got != want {
+				c16Fail(e, hx.Violation{Kind: "oracle", What: "js: insertWordBreaks output without <wbr> is not the escaped text of its input", Case: cj,
+					Expected: hx.Q(trunc(want)), Observed: hx.Q(trunc(out))}, c16JSKnown(d, y, out, "escaped"))
+			}
 		case "escapeHtml":
 			chks = append(chks, chk{ji, "html", y})
 			reqs = append(reqs, "html_decode "+hx.H(out))
@@ -1037,6 +1049,11 @@ func c16JS(e *env, src string, cases []c16Case) {
 		}
 	}
 	e.res.Note("JavaScript side: %d template calls evaluated in node %s with soyjs/lib/soyutils.js; their outputs were decoded by the extracted Coq decoders (pct_decode, js_read_literal, json_parse_string, html_decode, remove_tok). This tests the JS helpers; the theorems are about the Go directives.", len(in.Calls), "20")
+}
+
+// soy.$$escapeHtml on a string: the six units of soy.esc.$$MATCHER_FOR_ESCAPE_HTML_ (Proofs/CodecJsTie.v)
+func c16JSEscHTML(s string) string {
+	return strings.NewReplacer("\x00", "&#0;", "\"", "&quot;", "&", "&amp;", "'", "&#39;", "<", "&lt;", ">", "&gt;").Replace(s)
 }
 
 func wellFormedU(s string) bool { return utf8.ValidString(s) }
